@@ -336,7 +336,19 @@ def exec_roundtrip(job):
                 from fractions import Fraction
                 from rosbags.rosbag1 import Reader, Writer
                 path = os.path.join(d, "t.bag")
-                st = np.array([1.5e9 + 0.125 * k + v(k) % 1e-3 for k in range(N)]) if n % 2 else stamps
+                # stamps a ROS time can hold (0 <= t < 2^32 s): epoch stamps with sub-microsecond fractions, times since boot around
+                # 1e5 s and in [2^22, 2^25) s (where one float64 step is about a nanosecond), small stamps with 17 digits
+                import random
+                rr = random.Random(seed * 100003 + n)
+                fam = n % 4
+                if fam == 0:
+                    st = np.array([1.5e9 + 0.125 * k + rr.random() * 1e-3 for k in range(N)])
+                elif fam == 1:
+                    st = np.array(sorted(2.0 ** (22 + (n // 4 + k) % 3) * (1.0 + rr.random()) for k in range(N)))
+                elif fam == 2:
+                    st = np.array([1e5 * (k + 1) + rr.random() for k in range(N)])
+                else:
+                    st = np.array([float(k) + rr.random() for k in range(N)])
                 traj.timestamps = st
                 with Writer(path) as wr:
                     fi.write_bag_trajectory(wr, traj, "/pose", frame_id="mäp")
@@ -348,6 +360,19 @@ def exec_roundtrip(job):
                     if abs(Fraction(float(a)) - Fraction(float(b))) > Fraction(1, 10 ** 9):
                         lost += 1
                 nb = back.num_poses
+                if fam == 1:        # a longer trajectory with stamps where one float64 step is 0.9 .. 3.7 ns
+                    st2 = np.array(sorted(2.0 ** (22 + k % 3) * (1.0 + rr.random()) for k in range(96)))
+                    t2 = PoseTrajectory3D(positions_xyz=np.zeros((96, 3)), orientations_quat_wxyz=np.tile([1.0, 0, 0, 0], (96, 1)), timestamps=st2)
+                    path2 = os.path.join(d, "t2.bag")
+                    with Writer(path2) as wr:
+                        fi.write_bag_trajectory(wr, t2, "/pose")
+                    with Reader(path2) as rd:
+                        back2 = fi.read_bag_trajectory(rd, "/pose")
+                    if back2.num_poses != 96:
+                        lost += 1
+                    for a, b in zip(back2.timestamps, st2):
+                        if abs(Fraction(float(a)) - Fraction(float(b))) > Fraction(1, 10 ** 9):
+                            lost += 1
         except Exception as e:  # noqa: BLE001
             return {"out": type(e).__name__ + ":" + str(e)[:80], "n": 0, "lost": 0, "type_same": False}
         return {"out": "ok", "n": int(nb), "lost": int(lost), "type_same": bool(type_same)}
